@@ -442,6 +442,14 @@ class Real:
                 rec['subscribed'] = [bool(node.subscribed(p)) for p in self.nodes if p is not node]
             except RecursionError:  # a placeholder registered (directly or not) on itself: the accessor never returns
                 rec['subscribed'] = 'RecursionError'
+            # the placeholder's registrations are state too (a later call collapses all of them again); ``subscribed`` only
+            # tells whether *some* registration reaches a node, so a second registration of the same publisher left
+            # behind by a refused call would be invisible through it
+            rec['registered'] = sorted(
+                (self.idx(pub._node), pub._index, port)  # pylint: disable=protected-access
+                for pub, port in getattr(node, '_input', {}).items()
+                if self.idx(pub._node) is not None  # pylint: disable=protected-access
+            )
         return rec
 
     def snapshot(self, deep: bool = True):
